@@ -16,11 +16,11 @@ SCTP_ASSUME = [
 ]
 
 
-def _sctp(profile, rule, level="exploration", quick_s=40, thorough_s=600, probes=()):
+def _sctp(profile, rule, level="exploration", quick_s=40, thorough_s=600, probes=(), fn="run"):
     def build():
         from ..engines import sctp_sim
         return {
-            "fn": sctp_sim.run, "spec": {"profile": profile}, "level": level,
+            "fn": getattr(sctp_sim, fn), "spec": {"profile": profile}, "level": level,
             "quick_s": quick_s, "thorough_s": thorough_s, "rule": rule,
             "components": SCTP_COMPONENTS, "state_measure": SCTP_STATE_MEASURE,
             "assumptions": SCTP_ASSUME, "probes_expected": list(probes),
@@ -193,7 +193,32 @@ def _pc(run_name, rule, level="exploration", quick_s=45, thorough_s=600, probes=
     return build
 
 
+def _hostile():
+    def build():
+        from ..engines import hostile_sim
+        comps = dict(MEDIA_COMPONENTS)
+        comps["RTCSctpTransport, RTCDataChannel"] = "real (on the real DTLS transports)"
+        comps["forging actor"] = "harness: byte-level builders (own CRC32c), sent through the peer's real DTLS/SRTP or injected raw at ICE level"
+        return {
+            "fn": hostile_sim.run, "spec": {}, "level": "fault_enumeration", "quick_s": 50, "thorough_s": 600,
+            "rule": ("each evaluation is one simulated session (transports connected; SCTP start, channel open, media start, bursts as "
+                     "milestones) into which 3-30 forged or damaged datagrams are injected at generated points, i.e. in every protocol "
+                     "state the program passes through; run index i injects datagram class i mod %d first, at milestone position "
+                     "(i div %d) mod 7, so the class x state product is swept systematically while field values are sampled; "
+                     "non-trivial = >=1 datagram injected; distinct = distinct event-log digests") % (
+                         len(hostile_sim.ALL_CLASSES), len(hostile_sim.ALL_CLASSES)),
+            "components": comps,
+            "state_measure": "(datagram layer, victim SCTP association state, media started, channel open) at every injection",
+            "assumptions": MEDIA_ASSUME + ["cost is measured in executed Python lines (sys.monitoring) while the victim handles one forged datagram; "
+                                           "memory is not measured separately"],
+            "probes_expected": ["injected", "final_data_round_trip", "final_media_flowing", "cost_samples"] +
+                               ["inj_" + c for c in hostile_sim.ALL_CLASSES],
+        }
+    return build
+
+
 REGISTRY = {
+    "C05": _hostile(),
     "C03": _pc("run_c03", RULE_C03, probes=["negotiations_completed", "connected", "data_channels_verified", "renegotiations",
                                             "offering_side_swapped"],
                measure="configuration classes (bundle policies x item counts x data channels) counted under `configurations`"),
@@ -231,6 +256,8 @@ REGISTRY = {
     "C01": _sctp("c01", RULE_SCTP, probes=["fragmented_messages", "empty_messages", "messages_delivered"]),
     "C02": _sctp("c02", RULE_SCTP, probes=["drained_after_heal", "probe_delivered"]),
     "C06": _sctp("c06", RULE_SCTP, probes=["probe_delivered"]),
-    "C08": _sctp("c08", RULE_SCTP, probes=["wire_roundtrips", "corrupted_datagrams_handled"]),
+    "C08": _sctp("c08", RULE_SCTP + "; every fourth run is a hostile_sim session in which well-formed packets of every chunk type, "
+                  "built at byte level, go through the same parse / re-serialise monitor", fn="run_c08",
+                  probes=["wire_roundtrips", "corrupted_datagrams_handled", "wellformed_roundtrips"]),
     "C13": _sctp("c13", RULE_SCTP, probes=["id_reused", "close_before_id_assigned"]),
 }
